@@ -2,8 +2,9 @@ SPECIFICATION MCSpec
 CONSTANTS
   Chunks = {"c1", "c2", "c3"}
   Producers = {"p1", "p2"}
-  MaxT = 3
+  MaxT = 2
   MaxE = 2
   Original = FALSE
-INVARIANTS StorageTypeOK Durable WeightExact CertsPending NoLeak
+  TwoWrites = FALSE
+INVARIANTS StorageTypeOK Durable WeightExact CertsPending NoLeak CrashAtomic
 PROPERTIES ReopenInvisible
